@@ -1196,14 +1196,12 @@ impl World {
             K::MExtendIter => {
                 // Extend<u8> (b = 0) / Extend<&u8> (b = 1) with an exact size hint
                 // (b = 2: Extend<Bytes> with one static chunk; b = 3: Extend<Bytes> with one uniquely held Vec-backed chunk)
-                let d = self.fresh(op.a);
-                let by_ref = op.b == 1;
+                static STATIC_CHUNK: [u8; 8] = [0x5B; 8];
                 let mode = op.b;
+                let d = if mode == 2 { STATIC_CHUNK[..op.a.min(8)].to_vec() } else { self.fresh(op.a) };
+                let by_ref = op.b == 1;
                 let r = self.call(|w| match mode {
-                    2 => {
-                        let st: &'static [u8] = oracle::harness(|| Box::leak(d.clone().into_boxed_slice()));
-                        w.m(s).extend([Bytes::from_static(st)])
-                    }
+                    2 => w.m(s).extend([Bytes::from_static(&STATIC_CHUNK[..d.len()])]),
                     3 => {
                         let mut v = Vec::with_capacity(d.len() + 1);
                         v.extend_from_slice(&d);
